@@ -80,6 +80,32 @@ def okKw (k : String) : Bool := allWordChars k && k != ""
 /-- the leading word of a keyword (`unsigned` of `unsigned char`, empty for `#include`) -/
 def kwHead (k : String) : List Char := (spanP isWordChar k.toList).1
 
+/-- `k = head ++ " " ++ tail` with a non-empty tail of word characters (`enum class`, `unsigned char`): the tail -/
+def kwTail (k : String) : Option (List Char) :=
+  match (spanP isWordChar k.toList).2 with
+  | ' ' :: tail => if tail != [] && tail.all isWordChar then some tail else none
+  | _ => none
+
+/-- a two-word keyword whose first word stands here is excluded by the NEXT lexeme being another word than its tail -/
+def twoWordNo (k : String) (r : List Lexeme) : Bool :=
+  match kwTail k, r with
+  | some tail, .word w2 :: _ => tail != w2.toList
+  | _, _ => false
+
+/-- `std::pair` in front of the word `std`: excluded when `::` and another word than `pair` follow -/
+def stdPairNo (r : List Lexeme) : Bool :=
+  match r with
+  | .sym t :: .word w2 :: _ => t == "::" && w2 != "pair"
+  | _ => false
+
+/-- the word begins with `__` (then `Literal("__")` matches its beginning) -/
+def startsDunder (w : String) : Bool := w.toList.take 2 == ['_', '_']
+
+/-- two keywords neither of which is a prefix of the other: reading one where the other stands fails outright -/
+def kwIncomparable : Q → Q → Bool
+  | .kw k, .kw k' => !(k.toList.isPrefixOf k'.toList) && !(k'.toList.isPrefixOf k.toList)
+  | _, _ => false
+
 def ansNil (q : Q) : Ans :=
   match q with
   | .eof => .yes "" []
@@ -93,15 +119,20 @@ def ansWord (q : Q) (w : String) (r : List Lexeme) : Ans :=
   | .kw k =>
     if okKw k then (if w == k then .yes k r else .no)
     else if k != "" && kwHead k != w.toList then .no    -- `#include`, `unsigned char`, `enum class` in front of another word
+    else if twoWordNo k r then .no                      -- `enum class` in front of `enum E`
     else .stuck
-  | .lit t => if t ∈ symbols && t != "__" then .no else .stuck
+  | .lit t =>
+    if t ∈ symbols && t != "__" then .no
+    else if t == "__" && !startsDunder w then .no     -- the dunder marker in front of a word that does not begin with `__`
+    else .stuck
+  | .stdPair => if w != "std" then .no else if stdPairNo r then .no else .stuck
   | .eof => .no
   | _ => .stuck
 
 /-- in front of the dunder marker `__` (which starts like a word) -/
 def ansDunder (q : Q) (r : List Lexeme) : Ans :=
   match q with
-  | .lit t' => if t' == "__" then .yes t' r else .stuck
+  | .lit t' => if t' == "__" then .yes t' r else if t' ∈ symbols then .no else .stuck
   | .eof => .no
   | _ => .stuck
 
@@ -111,6 +142,7 @@ def ansSym (q : Q) (t : String) (r : List Lexeme) : Ans :=
   | .kw k => if okKw k then .no else .stuck
   | .lit t' =>
     if t' == t then .yes t' r
+    else if t' == "::" && t == ":" then .no     -- a single colon is never followed by another one (`LexOK`)
     else if isPrefixOfS t' t || isPrefixOfS t t' then .stuck
     else if t' ∈ symbols then .no else .stuck
   | .eof => .no
@@ -118,11 +150,12 @@ def ansSym (q : Q) (t : String) (r : List Lexeme) : Ans :=
 
 def ansAtom (q q' : Q) (tok lead : String) (r : List Lexeme) : Ans :=
   if q = q' then .yes tok r
+  else if kwIncomparable q q' then .no       -- `enum class` where `enum struct` stands
   else match q with
     | .eof => .no
     | _ =>
       if lead != "" then
-        match ansWord q lead r with
+        match ansWord q lead [] with    -- no look-ahead inside an atom: what follows its leading word is its own text
         | .no => .no
         | _ => .stuck
       else .stuck
